@@ -184,14 +184,14 @@ def rule_map_agreement(ctx):
     run.floor(R, 16)
 
 
-def rule_composite_registrations(ctx):
+def rule_composite_registrations(ctx, rule_id="C19.composite-registration"):
     """@CustomObject / @CustomObservable with extension_name= make TWO registrations: the extension definition, then the type.
     When the second is refused (duplicate type, bad property name) the first must not stay behind -- "a failed registration
     leaves the registries unchanged" -- or a corrected retry is itself refused as a duplicate extension.  Decided on the
     wrapper's shape: the builder call sits in a try whose handler undoes the extension registration and re-raises."""
     run = ctx.run
     prog = ctx.prog
-    R = "C19.composite-registration"
+    R = rule_id
     n = 0
     for fi in sorted(prog.functions.values(), key=lambda f: f.id):
         if fi.name != "wrapper" or fi.parent_func is None or fi.parent_func.name not in ("CustomObject", "CustomObservable"):
@@ -336,9 +336,9 @@ def rule_version_scope(ctx):
             len(calls) == 1 and len(calls[0].args) > 1 and norm(calls[0].args[1]) == "version")
         # the class registered is the one built here and returned
         okc = False
+        inner = [c for c in prog.classes.values() if c.parent_func is fi]
         if calls:
             a0 = norm(calls[0].args[0]) if calls[0].args else None
-            inner = [c for c in prog.classes.values() if c.parent_func is fi]
             rets = [r for r in body_walk(fi.node) if isinstance(r, ast.Return)]
             okc = bool(inner) and a0 == inner[0].name and any(norm(r.value) == a0 for r in rets)
         run.check(ok and okc, R, key(fi.module.relpath, fi.qualname, "registers-with-version"),
